@@ -214,6 +214,24 @@ def check_case(ctx, case):
         ha, hb = hash(a), hash(b)
     if ha == hb:
         raise Violation(sig, f"both hash to {ha}")
+    if case["fam"] == 2:
+        # the hash-based stereoisomer generator must find both isomers of
+        # the unit when its parity is left open
+        from stereomolgraph.experimental import generate_stereoisomers
+        mo = ma.copy()
+        for table in (mo.atom_stereo, mo.bond_stereo):
+            for k_, d in table.items():
+                table[k_] = (d[0], d[1], None)
+        g = rc.build(rc.from_model(mo))
+        with guard("C16/SMG/family2/generate_stereoisomers"):
+            isomers = list(generate_stereoisomers(g))
+        hs = {hash(x) for x in isomers}
+        if len(isomers) != 2 or len(hs) != 2 or hs != {ha, hb}:
+            raise Violation(
+                f"C16/SMG/family2/{unit}/generate_stereoisomers-count",
+                f"{len(isomers)} isomers generated for one open stereogenic "
+                f"unit (hashes {sorted(hs)}; expected the two hashes "
+                f"{sorted((ha, hb))})")
 
 
 def run(ctx):
@@ -253,4 +271,4 @@ def run(ctx):
         check_case(ctx, case)
 
     ctx.hyp("c16-f2", S.tapes(1200).map(gen2), check2,
-            ctx.scale(5000, 200000), shrinker=shrink)
+            ctx.scale(3000, 120000), shrinker=shrink)
